@@ -2,10 +2,12 @@ module mycoverif
 
 go 1.26.3
 
-require github.com/mycoria/mycoria v0.0.0
+require (
+	github.com/fxamacker/cbor/v2 v2.9.2
+	github.com/mycoria/mycoria v0.0.0
+)
 
 require (
-	github.com/fxamacker/cbor/v2 v2.9.2 // indirect
 	github.com/google/btree v1.1.3 // indirect
 	github.com/klauspost/cpuid/v2 v2.4.0 // indirect
 	github.com/mdlayher/ndp v1.1.0 // indirect
